@@ -118,7 +118,7 @@ func discharge(o *Obligation, dir string, timeout int, wantModel bool) {
 		// stage 0: a small query (control skeleton + the goal's own cone); unsat here is a proof
 		fs := base + ".skel.smt2"
 		os.WriteFile(fs, []byte("(set-option :smt.auto_config false)\n(set-option :smt.mbqi false)\n"+o.queryMode(false, true)), 0o644)
-		r0, dt0, _ := runSolver(solvers[0], 5, fs)
+		r0, dt0, _ := runSolver(solvers[0], 3, fs)
 		if r0 == "unsat" {
 			o.Status, o.Solver, o.Time = "proved", "z3-new(skeleton)", dt0
 			if os.Getenv("GOVC_KEEP") == "" {
@@ -369,4 +369,56 @@ func knownFindingNames() map[string]bool {
 		}
 	})
 	return kfNames
+}
+
+// crossCheck (thorough tier): every obligation the first solver proved is put to a second one (z3 4.8.12 when the query
+// has no string theory, else cvc5) for 20 s.  A definite `sat` there contradicts the proof: the obligation is failed.
+func crossCheck(obls []*Obligation, dir string, workers int) (agree, silent, conflicts int) {
+	var mu sync.Mutex
+	var wg sync.WaitGroup
+	ch := make(chan *Obligation)
+	for i := 0; i < workers; i++ {
+		wg.Add(1)
+		go func() {
+			defer wg.Done()
+			for o := range ch {
+				if o.Status != "proved" || o.Expect == "sat" || o.tr == nil {
+					continue
+				}
+				base := filepath.Join(dir, sanitize(o.Name))
+				q := o.query(false)
+				usesStrings := strings.Contains(q, "(str.") || strings.Contains(q, " String")
+				var res string
+				if usesStrings {
+					f := base + ".x.cvc5.smt2"
+					os.WriteFile(f, []byte(o.query(true)), 0o644)
+					res, _, _ = runSolver(solvers[2], 20, f)
+					os.Remove(f)
+				} else {
+					f := base + ".x.smt2"
+					os.WriteFile(f, []byte(q), 0o644)
+					res, _, _ = runSolver(solvers[1], 20, f)
+					os.Remove(f)
+				}
+				mu.Lock()
+				switch res {
+				case "unsat":
+					agree++
+				case "sat":
+					conflicts++
+					o.Status = "failed"
+					o.Solver += " (contradicted by the second solver)"
+				default:
+					silent++
+				}
+				mu.Unlock()
+			}
+		}()
+	}
+	for _, o := range obls {
+		ch <- o
+	}
+	close(ch)
+	wg.Wait()
+	return
 }
